@@ -13,7 +13,7 @@ EXTENDS Integers, Sequences, FiniteSets, TLC
 
 Secrets  == {"none", "s1", "s2"}
 CONSTANT Classes   \* subset of {"absent", "valid_s1", "valid_s2", "wrongsig", "alg_none", "alg_rs256", "expired",
-                   \*            "future_near", "future_far", "garbage", "payload_tampered", "header_tampered"}
+                   \*            "future_near", "future_far", "garbage", "payload_tampered", "header_tampered", "empty_key"}
 Carriers == {"header", "query", "cookie"}
 Endpoints == {"relay", "smoketest"}
 
@@ -22,6 +22,7 @@ Verifies(cls, s) ==
   \/ (cls = "valid_s1" /\ s = "s1")
   \/ (cls = "valid_s2" /\ s = "s2")
   \/ (cls = "future_near" /\ s = "s1")
+  \/ (cls = "empty_key" /\ s = "none")     \* signed with the empty key: what "no secret" would verify if it were used as one
 
 \* a header without the "Bearer " prefix counts as no header token
 Effective(req) ==
